@@ -659,10 +659,15 @@ def binop(ex, op, l, r, inplace=False):
             if b'%' in b''.join(pieces) or len(pieces) != len(argv) + 1:
                 raise Unsupported('bytes % formatting other than %s')
             out = SBytes.concrete(pieces[0])
+            ascii_only = all(c < 128 for c in fmt)
             for x, tail in zip(argv, pieces[1:]):
                 if not isinstance(x, SBytes):
                     raise Unsupported('bytes % formatting of a non-bytes argument')
+                if not (getattr(x, 'ascii_only', False) or (x.conc is not None and all(c < 128 for c in x.conc))):
+                    ascii_only = False
                 out = bytes_concat(bytes_concat(out, x), SBytes.concrete(tail))
+            if ascii_only:
+                out.ascii_only = True      # decode() of it never fails
             return out
     if isinstance(op, ast.Sub) and isinstance(l, SSet) and isinstance(r, SSet) and \
             (l.ranges or r.ranges or l.minus is not None or r.minus is not None or l.pred or r.pred):
